@@ -63,6 +63,9 @@ def configs(tier):
             c.append({"kind": "gen", "K": K, "first": k0, "names": ns})
     # three alleles that collide on one shown name (renaming :2, :3), normal structures
     c.append({"kind": "gen", "K": 3, "first": 0, "names": 3, "normal_only": True})
+    # two left fusions with one break point (one structure) next to a normal allele
+    c.append({"kind": "gen", "K": 3, "first": 1, "names": 0, "kinds": [1, 1, 0]})
+    c.append({"kind": "gen", "K": 3, "first": 1, "names": 1, "kinds": [1, 1, 0]})
     ship = [g for g in gengene.shipped_genes() if not g.startswith("pharma")]
     for i in range(4):
         c.append({"kind": "corpus", "genes": ship[i::4]})
@@ -180,6 +183,26 @@ def invariants(gene, db_alleles=None):
                                              f"{sorted(map(str, a.func_muts))}, parent's "
                                              f"retained core variants are "
                                              f"{sorted(map(str, keep))}"))
+    # a bare left fusion (its own allele has no core variant) is a candidate together with
+    # every normal allele's retained part: for each normal major allele some major allele
+    # of the fused structure carries exactly its retained core variants
+    from aldy.gene import CNConfigType
+    normal = [an for an, a in gene.alleles.items() if "#" not in an and a.cn_config in
+              gene.cn_configs and gene.cn_configs[a.cn_config].kind == CNConfigType.DEFAULT]
+    for f, cfgf in gene.cn_configs.items():
+        if cfgf.kind != CNConfigType.LEFT_FUSION or f not in gene.alleles \
+                or gene.alleles[f].func_muts:
+            continue
+        have = {frozenset(a.func_muts) for a in gene.alleles.values() if a.cn_config == f}
+        for pn in normal:
+            keep = frozenset(
+                m for m in gene.alleles[pn].func_muts if gene.region_at(m.pos)
+                and cfgf.cn[gene.region_at(m.pos)[0]][gene.region_at(m.pos)[1]] > 0)
+            if keep not in have:
+                probs.append(("partial-missing", f"bare left fusion {f}: no candidate of "
+                                                 f"that structure carries the retained core "
+                                                 f"variants {sorted(map(str, keep))} of "
+                                                 f"allele {pn}"))
     # reachability by name
     if db_alleles is not None:
         owners = collections.defaultdict(list)
@@ -243,7 +266,9 @@ def run_gen(cfg):
     base = [z3.And(m >= 0, m < 8) for m in masks] + [z3.And(k >= 0, k < len(KINDS))
                                                      for k in kinds]
     base.append(kinds[0] == cfg["first"])
-    if cfg.get("normal_only"):
+    if cfg.get("kinds"):
+        base += [k == v for k, v in zip(kinds, cfg["kinds"])]
+    elif cfg.get("normal_only"):
         base += [k == 0 for k in kinds]
     elif K > 2:
         # third allele: normal or left fusion, over the first two variants only
